@@ -120,6 +120,7 @@ func genWorld(t *rapid.T, g WorldGen) World {
 			}
 		}
 	}
+	c.RejectLeader = genRejectLeader(t)
 	var ordinary, flash []uint64
 	for i := range c.Stores {
 		s := &c.Stores[i]
@@ -194,6 +195,73 @@ func genWorld(t *rapid.T, g WorldGen) World {
 	c.ReserveIDs(w.Regions...)
 	w.Cluster = c
 	return w
+}
+
+// genRejectLeader draws the reject-leader label property as a LIST of 0-4 entries
+// over the label keys and values the generated stores use (simkit: zone z1-z3, rack
+// r1-r2, host h1-h4, noleader=true) plus values and keys no store carries. Entries
+// that share one key (two or three zones rejected, as `pd-ctl config set
+// label-property reject-leader zone z1` followed by `... zone z2` produces) are
+// frequent. Keys are written exactly as the stores write them.
+func genRejectLeader(t *rapid.T) []simkit.Label {
+	if simkit.Pct(t, 30, "noRejectLeader") {
+		return nil
+	}
+	vocab := map[string][]string{
+		"zone":     {"z1", "z2", "z3", "z9"},
+		"rack":     {"r1", "r2", "r9"},
+		"host":     {"h1", "h2", "h3", "h4", "h9"},
+		"noleader": {"true", "false"},
+		"dc":       {"x"},
+	}
+	keys := []string{"zone", "zone", "zone", "host", "host", "rack", "noleader", "noleader", "dc"}
+	main := simkit.Pick(t, keys, "rejectMainKey")
+	n := simkit.IntU(t, 1, 4, "nReject")
+	var out []simkit.Label
+	seen := map[simkit.Label]bool{}
+	for i := 0; i < n; i++ {
+		k := main
+		if simkit.Pct(t, 30, "rejectOtherKey") {
+			k = simkit.Pick(t, keys, "rejectKey")
+		}
+		l := simkit.Label{Key: k, Value: simkit.Pick(t, vocab[k], "rejectValue")}
+		if !seen[l] {
+			seen[l] = true
+			out = append(out, l)
+		}
+	}
+	return out
+}
+
+// repeatedRejectKey: two entries of the reject-leader property share a label key.
+func repeatedRejectKey(c *simkit.ClusterSpec) bool {
+	seen := map[string]bool{}
+	for _, l := range c.RejectLeader {
+		if seen[strings.ToLower(l.Key)] {
+			return true
+		}
+		seen[strings.ToLower(l.Key)] = true
+	}
+	return false
+}
+
+// rejectsLeader is the documented meaning of the reject-leader label property: some entry
+// (key, value) of the list matches a label of the store — key compared like
+// StoreInfo.GetLabelValue does (case-insensitively), value exactly. Every entry counts,
+// also several entries with one key.
+func rejectsLeader(c *simkit.ClusterSpec, id uint64) bool {
+	s := c.Store(id)
+	if s == nil {
+		return false
+	}
+	for _, p := range c.RejectLeader {
+		for _, l := range s.Labels {
+			if strings.EqualFold(l.Key, p.Key) && l.Value == p.Value {
+				return true
+			}
+		}
+	}
+	return false
 }
 
 func idx(n int) []int {
@@ -339,8 +407,8 @@ func whyNoLeader(c *simkit.ClusterSpec, id uint64) string {
 	if s.Busy {
 		ss = append(ss, "busy")
 	}
-	if c.RejectsLeader(s) {
-		ss = append(ss, "reject-leader label")
+	if c.RejectsLeader(s) || rejectsLeader(c, id) {
+		ss = append(ss, fmt.Sprintf("reject-leader label property %v matches its labels %v", c.RejectLeader, s.Labels))
 	}
 	return strings.Join(ss, ", ")
 }
@@ -435,7 +503,7 @@ func execOperator(x *opCtx, sim *simkit.Region, op *operator.Operator) (opFacts,
 			if e := sim.CanTransferTo(st.ToStore); e != nil {
 				return f, fail(i, "transfers the leader to store %d: %v (%s)", st.ToStore, e, sim)
 			}
-			if !x.c.AcceptsLeader(st.ToStore) {
+			if !x.c.AcceptsLeader(st.ToStore) || rejectsLeader(x.c, st.ToStore) {
 				switch {
 				case x.grantStore != 0 && st.ToStore == x.grantStore:
 					// administrative forced leader on the configured store
